@@ -29,6 +29,11 @@ def insitu_matrix(ctx):
         dict(label="bar/strong-current/retries/RuntimeWarnings are errors", dev="bar", current=20.0, field=1.0, dt=0.25, dt_max=2.0, window=2, solve_time=0.5,
              werror=True),
         dict(label="bar/screening/fixed step", dev="bar", current=5.0, field=0.5, solve_time=0.08, screening=True, adaptive=False),
+        # gamma and u asked for through Layer(...): gamma = 0 (z = 0: linear update), gamma = 1, a non-default u
+        dict(label="bar/Layer(gamma=0)/transport current", dev="bar", gamma=0.0, current=8.0, field=0.5, solve_time=0.3),
+        dict(label="tee/Layer(gamma=1, u=1)/retries", dev="tee", gamma=1.0, u=1.0, current=12.0, field=0.6, dt=0.125, dt_max=0.5, window=2, solve_time=1.0),
+        dict(label="barhole/Layer(gamma=0, u=2.5)/time-dependent epsilon", dev="barhole", gamma=0.0, u=2.5, current=4.0, field=0.4, epsilon_ramp=0.2,
+             solve_time=0.3),
     ]
     if not ctx.quick:
         runs += [
@@ -58,6 +63,12 @@ def insitu(ctx):
     ctx.cov["insitu"] = {"runs": len(runs), "updates_observed": sum(r["n_updates"] for r in res), "traces": len(traces),
                          "retried_answered_updates_with_mu": retried_mu, "phases": phases, "max_screening_iterations": max(r["max_iterations"] for r in res),
                          "refused_attempts_checked": sum(1 for t in traces if t["refused"])}
+    ran = [(r["requested_gamma"], r["requested_u"], r["u_passed"]) for r in res if r["n_updates"] > 0]
+    ctx.cov["insitu"]["requested_gamma_values"] = sorted({g for g, _, _ in ran})
+    ctx.cov["insitu"]["requested_u_values"] = sorted({u for _, u, _ in ran})
+    if not any(g == 0.0 for g, _, _ in ran) or not any(g not in (0.0, 10.0) for g, _, _ in ran) or not any(p and u != 5.79 for _, u, p in ran) \
+            or not any(not p for _, _, p in ran):
+        raise core.MachineryFailure(f"C02 in situ: need runs with Layer(gamma=0), another non-default gamma, a non-default u and the default u: {ran}")
     if retried_mu < 3:
         raise core.MachineryFailure(f"C02 in situ: only {retried_mu} retried answered updates with mu != 0 (need >= 3)")
     if "second-solve" not in phases or "seeded" not in phases:
@@ -106,6 +117,8 @@ def insitu(ctx):
         ctx.sample({"in_situ": owner[n], "step": t["label"], "level": t["level"], "retried": t["retried"], "sites": len(t["ev"]), "worst_residual_quanta": t["worst"]})
     elif not ctx.violations:
         raise core.MachineryFailure("C02 in situ: no update-level trace accepted")
+    ctx.assume("in situ: gamma, u, xi and epsilon of the oracle are the values the harness asked for through Layer(...)/Device(...)/disorder_epsilon, "
+               "not attributes read back from the objects (u defaults to the documented 5.79 when not passed); dt is the observed returned step")
     ctx.assume("in situ: the covariant Laplacian action is operators.psi_laplacian @ psi^n evaluated right after update() returns (link state of the "
                "step's last Euler step); epsilon is solver.epsilon after the call; sites whose exact |D|/(2c+1)^2 < 1e-9 have a free verdict")
 
